@@ -48,6 +48,14 @@ func c04ExprValue(tmpl string, v any) any {
 			return strings.ToUpper(s)
 		}
 		return nil
+	case "substring(%s, 0, 1)":
+		if s, ok := v.(string); ok && len(s) > 0 {
+			return s[:1]
+		}
+		if s, ok := v.(string); ok {
+			return s
+		}
+		return nil
 	case "sqrt(%s)":
 		if f, ok := num(v); ok && f >= 0 {
 			return math.Sqrt(f)
@@ -102,6 +110,8 @@ var c04Sets = []c04Set{
 	{"col-func", 2, []c04Tuple{{"r", "x"}, {"r", "y"}, {"s", "x"}, {"r", "X"}}, false, false, false, []string{"", "upper(%s)"}, nil},
 	{"func-col", 2, []c04Tuple{{"x", "r"}, {"y", "r"}, {"X", "s"}}, false, false, false, []string{"upper(%s)", ""}, nil},
 	{"func-func", 2, []c04Tuple{{4, "x"}, {4, "y"}, {c04Missing, "x"}, {c04Missing, "y"}, {-1, "x"}}, false, false, false, []string{"sqrt(%s)", "upper(%s)"}, nil},
+	// a function key with several arguments (commas inside the key; the selected item is a multi-argument scalar call)
+	{Name: "func-args2", Cols: 2, Tuples: []c04Tuple{{"ab", "x"}, {"ac", "x"}, {"bb", "x"}, {"ab", "y"}}, Exprs: []string{"substring(%s, 0, 1)", ""}},
 	// grouping columns whose names differ only in letter case are different columns
 	{Name: "case-names2", Cols: 2, Tuples: []c04Tuple{{"a", 1}, {"a", 2}, {"b", 2}}, Names: []string{"site", "SITE"}},
 	{Name: "case-names-func2", Cols: 2, Tuples: []c04Tuple{{"x", "x"}, {"x", "y"}, {"y", "y"}}, Exprs: []string{"upper(%s)", "upper(%s)"}, Names: []string{"k", "K"}},
